@@ -325,7 +325,7 @@ func checkC10(c *Ctx) {
 			bodies = append(bodies, []MPart{a, b})
 		}
 	}
-	for _, pv := range []*E{vr("a"), vr("n"), vr("x"), vr("b", Acc{Kind: "dot", Key: "x"}), call("length", vr("l"))} {
+	for _, pv := range []*E{vr("a"), vr("n"), vr("x"), vr("b", Acc{Kind: "dot", Key: "x"}), call("length", vr("l")), vr("a", Acc{Kind: "idx", Idx: 0})} {
 		for mask := 0; mask < 8; mask++ {
 			for bi, db := range bodies {
 				if mask != 2 && bi%9 != 0 && !c.Thorough() {
